@@ -16,13 +16,20 @@ INVS = ['PartitionInOrder', 'AllButLastFull', 'DropOnlyIncomplete', 'MaskIsPrefi
         'BatchCount']
 
 
-def real_run(fedjax, n, bs, k, mode, drop, variant, chain):
-  """Runs the real view twice; returns (batches as (ids, mask, padzero, feat_ok), same_again, dataset_unchanged)."""
+def real_run(fedjax, n, bs, k, mode, drop, variant, chain, sliced=0):
+  """Runs the real view twice; returns (batches as (ids, mask, padzero, feat_ok), same_again, dataset_unchanged).
+
+  sliced: 0 = a dataset built directly; 1, 2 = the same n examples obtained by slicing a larger dataset (once / twice)."""
   raw = bat.raw_examples(n, variant)
-  before = bat.checksum(raw)
   ref = bat.apply_chain(chain, raw)
   pre = fedjax.BatchPreprocessor(bat.CHAINS[chain])
-  ds = fedjax.ClientDataset(raw, pre)
+  if sliced:
+    parent = fedjax.ClientDataset(bat.raw_examples(n + 5, variant, offset=-2), pre)     # ids -1 .. n+3
+    ds = parent[2:n + 2] if sliced == 1 else parent[1:][:n + 1][1:]
+    raw = ds.raw_examples
+  else:
+    ds = fedjax.ClientDataset(raw, pre)
+  before = bat.checksum(raw)
   if mode == 'padded':
     view = ds.padded_batch(fedjax.PaddedBatchHParams(batch_size=bs, num_batch_size_buckets=k))
   else:
@@ -76,7 +83,7 @@ def run(ctx):
     if c.get('short'):
       combos = combos[:1]
     for variant, chain in combos:
-      got, same, unchanged = real_run(fedjax, c['n'], c['bs'], c['k'], c['mode'], c['drop'], variant, chain)
+      got, same, unchanged = real_run(fedjax, c['n'], c['bs'], c['k'], c['mode'], c['drop'], variant, chain, sliced=(ci + chain) % 3)
       exp = [(list(b['ids']), list(b['mask'])) for b in c['out']]
       act = [(g[0], g[1]) for g in got]
       key = (c['n'], c['bs'], c['k'], c['mode'], c['drop'])
@@ -84,7 +91,7 @@ def run(ctx):
       ctx.case(key=key, nontrivial=c['n'] > 0 and (rem != 0 or c['n'] >= 2 * c['bs']))
       replayed += 1
       cfg = dict(n=c['n'], batch_size=c['bs'], buckets=c['k'], mode=c['mode'], drop=c['drop'], features=variant,
-                 chain=chain)
+                 chain=chain, sliced=(ci + chain) % 3)
       if exp != act:
         ctx.violation(f'replay:{c["mode"]}:batches', f'real batches differ from the specification for {cfg}: '
                       f'expected {exp} got {act}', replay={'cfg': cfg, 'expected': exp, 'actual': act})
